@@ -39,7 +39,7 @@ META = dict(
          "of the object is allocated and of finite depth: ParseResults.deepcopy(): deepcopy_tokens_fresh (every group "
          "reachable through the copy's token lists is a new object with new list and dict cell, not in the original's "
          "token tree — deepcopy_tokens_fresh_full: not reachable from the original by any route —, and as_list() of "
-         "the copy = as_list() of the original to every depth), deepcopy_frame_tokens / deepcopy_frame_tokens_many (own "
+         "the copy = as_list() of the original to every depth; deepcopy_views: BOTH views, nested, are the original's), deepcopy_frame_tokens / deepcopy_frame_tokens_many (own "
          "mutations of any groups of the copy's token tree never change the original's as_list(), and vice versa), "
          "deepcopy_names_shared + deepcopy_named_alias_any_depth (registered finding deepcopy_named_group_aliased, "
          "general form: at every depth the copy of a group keeps the very occurrence lists of the original, so every "
@@ -105,6 +105,7 @@ THEOREMS = [
     "PP.PRHeap.deepcopy_names_shared",
     "PP.PRHeap.deepcopy_named_alias_any_depth",
     "PP.PRHeap.deepcopy_tokens_fresh_full",
+    "PP.PRHeap.deepcopy_views",
     "PP.PRHeap.deepcopyN_corr",
     "PP.PRHeap.deepcopyN_ext",
     # copy.deepcopy / pickle of nested results (memoised model deepObjN / copyModuleDeep)
